@@ -323,8 +323,19 @@ func (s *State) storePtr(p VPtr, v Value) {
 // materialised and memoised by syntactic index (two syntactically different indices get two
 // independent symbolic elements: an over-approximation, sound for proving).
 func (s *State) seqRead(o *Object, idx *Term) Value {
-	return s.seqReadFrom(o, idx, len(o.Seq.entries)-1)
+	v := s.seqReadFrom(o, idx, len(o.Seq.entries)-1)
+	if seqReadHook != nil && !inSeqHook {
+		inSeqHook = true
+		seqReadHook(s, s.heap[o.ID], idx, v)
+		inSeqHook = false
+	}
+	return v
 }
+
+// seqReadHook instantiates universal facts at an element read (set by the executor): wf of the element when the
+// sequence carries an allwf fact, and the sum unfolding at idx+1 when sums over this sequence are in use.
+var seqReadHook func(st *State, o *Object, idx *Term, v Value)
+var inSeqHook bool
 
 func (s *State) seqReadFrom(o *Object, idx *Term, upto int) Value {
 	q := o.Seq
@@ -347,7 +358,7 @@ func (s *State) seqReadFrom(o *Object, idx *Term, upto int) Value {
 			return e.val
 		}
 	}
-	v := s.symValue(q.elemT, fmt.Sprintf("%s[%s]", q.name, idxName(idx)), 2, false)
+	v := s.symValue(q.elemT, fmt.Sprintf("%s[%s]", q.name, idxName(idx)), 3, false)
 	cur := s.heap[o.ID]
 	c := *cur
 	nq := *cur.Seq
